@@ -910,6 +910,74 @@ class Machine:
         return None
 
 
+def _is_pop(n) -> bool:
+    return isinstance(n, ast.Call) and isinstance(n.func, ast.Attribute) and n.func.attr == "pop"
+
+
+class PopMachine(Machine):
+    """Machine whose EXPRESSIONS may take-and-remove from the containers of the run: `d.pop(k[, default])` inside an expression is evaluated in Python's order (receiver, arguments
+    left to right - an inner pop happens first -, then the removal), `or` / `and` / conditional expressions evaluate only the operands Python would evaluate. The value of every pop
+    is bound to a fresh name, the rest of the expression is left to the evaluator of Machine. A tuple is evaluated member by member (tolerant mode: one uninterpreted member does
+    not hide the others)."""
+
+    _n = 0
+
+    def val(self, e, env):
+        e = self.expand(e)
+        if not any(_is_pop(n) for n in ast.walk(e)):
+            return Machine.val(self, e, env)
+        return self._pval(e, env)
+
+    def _pval(self, e, env):
+        if not any(_is_pop(n) for n in ast.walk(e)):
+            return Machine.val(self, e, env)
+        if isinstance(e, ast.BoolOp):
+            r = None
+            for x in e.values:
+                r = self._pval(x, env)
+                if bool(r) != isinstance(e.op, ast.And):
+                    return r
+            return r
+        if isinstance(e, ast.IfExp):
+            return self._pval(e.body if self._pval(e.test, env) else e.orelse, env)
+        if _is_pop(e):
+            recv = self._pval(e.func.value, env)
+            if not isinstance(recv, (dict, list)) or e.keywords or any(isinstance(a, ast.Starred) for a in e.args):
+                raise CannotEval(f"{short(e, 50)}: receiver / arguments of pop")
+            args = [self._pval(a, env) for a in e.args]
+            try:
+                return recv.pop(*args)
+            except (KeyError, IndexError, TypeError) as x:
+                raise CannotEval(f"{short(e, 50)}: {type(x).__name__}")
+        m, env2 = self, dict(env)
+
+        class T(ast.NodeTransformer):
+            def visit(self, n):
+                if isinstance(n, ast.expr) and any(_is_pop(x) for x in ast.walk(n)) and (_is_pop(n) or isinstance(n, (ast.BoolOp, ast.IfExp))):
+                    PopMachine._n += 1
+                    nm = f"_pop{PopMachine._n}_"
+                    env2[nm] = m._pval(n, env)
+                    return ast.Name(id=nm, ctx=ast.Load())
+                if isinstance(n, (ast.Lambda, ast.ListComp, ast.SetComp, ast.DictComp, ast.GeneratorExp)) and any(_is_pop(x) for x in ast.walk(n)):
+                    raise CannotEval(f"{short(n, 50)}: pop in a deferred expression")
+                return self.generic_visit(n)
+
+        return Machine.val(self, ast.fix_missing_locations(T().visit(source.clone(e))), env2)
+
+    def value_of(self, e, env):
+        if isinstance(e, ast.Tuple) and not any(isinstance(x, ast.Starred) for x in e.elts):
+            out = []
+            for x in e.elts:
+                try:
+                    out.append(self.value_of(x, env))
+                except CannotEval:
+                    if self.strict:
+                        raise
+                    out.append(_Opaque(short(x, 40)))
+            return tuple(out)
+        return Machine.value_of(self, e, env)
+
+
 def json_events(doc, prefix=""):
     """the (prefix, event, value) stream ijson.parse produces for the JSON document `doc` (reference model of the event source; ints as 'integer', floats as 'double')."""
     if isinstance(doc, dict):
@@ -2854,6 +2922,127 @@ def run(chk):
         if ok is not None:
             chk.ob("O19.3", "composite cursor requested by its full path", ok, pcalls[0], u(oarg))
 
+    # ---- O19.10 the paginated extractors: what they REPORT of the response equals the full parse ------------------------------------------------------------------------------
+    # Decided on VALUES: the statements of <Extractor>.__call__ are interpreted (PopMachine, tolerant) on representative responses; the selective parse inside is the interpreted
+    # parse() of O19.3 on the ijson event stream of the probe response. The dict the extractor returns (standardised keys) is compared with the fully parsed response: hit total
+    # (object-shaped ES 7+ total incl. the boundary value 0 and a lower bound `gte`, members in either order; integer ES 6 total incl. 0; later pages: the total handed in),
+    # relation, the composite cursor (absent / members with falsy values), timed_out, took. No spelling of the standardisation is looked at.
+    chk.rule("O19.10", "paginated extractors (search_after, composite): the hit total, its relation, the cursor object, timed_out and took they return equal the values of the fully parsed "
+             "response - for the object-shaped and the integer total, the boundary total 0, a lower-bound total, any member order, and on later pages the total handed in by the caller", 5,
+             "a total of 0 / a falsy value is taken for 'absent' and replaced by residue of the selective parse or a default; relation of a lower-bound total reported as eq; cursor dropped")
+    AGG_PATH = ["outer", "inner"]
+
+    def probe_response(total, after, order, timed_out=False, pit=True):
+        inner_ = {"buckets": [{"key": {"vendor": "a"}, "doc_count": 0}]}
+        if after is not None:
+            inner_ = {"after_key": after, **inner_}
+        parts = {"took": 7, "timed_out": timed_out, "_shards": {"total": 3, "successful": 3, "skipped": 0, "failed": 0}, "hits": {"total": total, "max_score": None, "hits": []},
+                 "aggregations": nest(AGG_PATH, inner_)}
+        if pit:
+            parts["pit_id"] = "cGl0"
+        return {k_: parts[k_] for k_ in order if k_ in parts}
+
+    ORDER_A = ("pit_id", "took", "timed_out", "_shards", "hits", "aggregations")
+    ORDER_B = ("aggregations", "hits", "_shards", "timed_out", "took", "pit_id")
+    TOTALS = [({"value": 0, "relation": "eq"}, 0, "eq"), ({"value": 3, "relation": "eq"}, 3, "eq"), ({"value": 10000, "relation": "gte"}, 10000, "gte"),
+              ({"relation": "gte", "value": 10000}, 10000, "gte"), ({"relation": "eq", "value": 0}, 0, "eq"), (0, 0, "eq"), (7, 7, "eq")]
+    AFTERS = [None, {"vendor": "z"}, {"vendor": "", "n": 0, "f": False, "x": None}]
+
+    def extractor_check(cls_name, with_path):
+        C_ = rn.index().get(cls_name)
+        fn_ = rn.methods(C_).get("__call__") if isinstance(C_, ast.ClassDef) else None
+        if fn_ is None:
+            chk.unknown("O19.10", f"{cls_name}.__call__ could not be located", rn.tree)
+            return
+        fps = params_of(fn_)
+        if "get_point_in_time" not in fps or "hits_total" not in fps:
+            chk.unknown("O19.10", f"{cls_name}.__call__: the parameters get_point_in_time / hits_total could not be located", fn_)
+            return
+        pathp = None
+        if with_path:
+            cands = [p_ for p_ in fps if p_ not in ("self", "get_point_in_time", "hits_total") and any(isinstance(n, ast.Call) and isinstance(n.func, ast.Attribute) and n.func.attr == "join"
+                                                                                                      and p_ in loads_of(n) for n in walk_body(fn_))]
+            if len(cands) != 1:
+                chk.unknown("O19.10", f"{cls_name}.__call__: the parameter holding the path of the aggregation could not be located", fn_)
+                return
+            pathp = cands[0]
+        expand10 = Expander(rn, C_)
+
+        def extract(doc, get_pit, hits_total):
+            events = list(json_events(doc))
+
+            def on_call(c, env, m):
+                if isinstance(c.func, ast.Name) and rn.index().get(c.func.id) is pf:
+                    a_ = source.bind_args(c, pf)
+                    if pp[1] not in a_:
+                        raise CannotEval("parse() called without a list of properties")
+                    vals = [m.val(a_[q_], env) if q_ in a_ else None for q_ in pp[1:4]]
+                    if not isinstance(vals[0], (list, tuple)) or any(v_ is not None and not isinstance(v_, (list, tuple)) for v_ in vals[1:]):
+                        raise CannotEval("the paths handed to parse() are not lists")
+                    return scan(events, *vals)[0]
+                return NotImplemented
+
+            m = PopMachine(expand10, strict=False, on_call=on_call)
+            env = {"get_point_in_time": get_pit, "hits_total": hits_total}
+            if pathp:
+                env[pathp] = list(AGG_PATH)
+            sig = m.run(fn_.body, env)
+            if sig is None or sig[0] != "return":
+                raise CannotEval(f"{cls_name}.__call__ does not return for the probe response" + (f" (it raises at line {sig[1].lineno})" if sig is not None and sig[0] == "raise" else ""))
+            r = sig[1]
+            dicts = [r] if isinstance(r, dict) else [x for x in r if isinstance(x, dict)] if isinstance(r, tuple) else []
+            if len(dicts) != 1:
+                raise CannotEval(f"{cls_name}.__call__ does not return (a tuple with) one dict of extracted properties")
+            return dicts[0]
+
+        bad, seen, n_runs = {}, set(), 0
+        ASPECTS = ("hit total", "relation of the hit total", "timed_out and took") + (("composite cursor",) if with_path else ())
+
+        def compare(aspect, key_, got, want, what):
+            if key_ not in got:
+                return
+            seen.add(aspect)
+            v_ = got[key_]
+            if isinstance(v_, _Opaque):
+                raise CannotEval(f"the value returned under {key_!r} is not interpreted ({v_.what})")
+            if not same_json(v_, want) and aspect not in bad:
+                bad[aspect] = f"{what}: the extractor returns {key_!r} = {v_!r}, the fully parsed response has {want!r}"
+
+        try:
+            for i_, (total, value, relation) in enumerate(TOTALS):
+                for order in (ORDER_A, ORDER_B):
+                    for later in (False, True):
+                        after = AFTERS[(i_ + later + (order is ORDER_B)) % len(AFTERS)] if with_path else None
+                        get_pit = (i_ + later) % 2 == 0
+                        t_out = i_ % 3 == 1
+                        doc = probe_response(total, after, order, timed_out=t_out)
+                        got = extract(doc, get_pit, value if later else None)
+                        n_runs += 1
+                        what = (f"response with hits.total = {total!r}" + (f", after_key = {after!r}" if with_path else "") + f", members in the order {list(k_ for k_ in order if k_ in doc)}, "
+                                + ("a later page (hits_total = %r handed in)" % value if later else "first page (hits_total = None)") + f", get_point_in_time = {get_pit}")
+                        compare("hit total", "hits.total.value", got, value, what)
+                        if not later:
+                            compare("relation of the hit total", "hits.total.relation", got, relation, what)
+                        compare("timed_out and took", "timed_out", got, t_out, what)
+                        compare("timed_out and took", "took", got, 7, what)
+                        if with_path:
+                            compare("composite cursor", "after_key", got, after, what)
+        except (CannotEval, TypeError) as e:
+            chk.unknown("O19.10", f"{cls_name}.__call__ cannot be interpreted on a probe response: {e}", fn_)
+            return
+        for aspect in ASPECTS:
+            if aspect not in seen:
+                chk.unknown("O19.10", f"{cls_name}.__call__: the key under which the {aspect} is returned could not be located in its result", fn_)
+                continue
+            chk.ob("O19.10", f"{cls_name}: {aspect} == the value of the full parse", aspect not in bad, fn_, bad.get(aspect) or f"{n_runs} probe responses / calls agree with the full parse",
+                   key=f"{_R}:{cls_name}:extract:{aspect}")
+
+    if not gave_up3:
+        extractor_check("SearchAfterExtractor", False)
+        extractor_check("CompositeAggExtractor", True)
+    else:
+        chk.unknown("O19.10", "parse() cannot be interpreted (see O19.3): the extractors built on it are not evaluated", PL)
+
 from sa.selftest import V  # noqa: E402
 
 _NEW = "            # sort values may contain brackets themselves so only the JSON decoder can tell where the array ends\n            last_sort, _ = self.decoder.raw_decode(response_str, index_of_last_sort + last_sort_str.start(1))\n            return last_sort"
@@ -3074,6 +3263,13 @@ _B9_B10_SHAPES = [
         swap=("        results[\"took\"] += parsed.get(\"took\")\n", "        results[\"took\"] = parsed.get(\"took\")\n")),
 ]
 
+_TOTAL_LINE = "        parsed[\"hits.total.value\"] = parsed.pop(\"hits.total.value\", parsed.pop(\"hits.total\", hits_total))\n"
+_REL_LINE = "        parsed[\"hits.total.relation\"] = parsed.get(\"hits.total.relation\", \"eq\")\n"
+_CA_REL = _REL_LINE + "        parsed[\"after_key\"]"
+_SA_REL = _REL_LINE + "\n        return parsed, self._get_last_sort(response)\n"
+_CA_TOTAL = _TOTAL_LINE + _CA_REL
+_SA_TOTAL = _TOTAL_LINE + _SA_REL
+
 VARIANTS = [
     V("F17 guard dropped (harmless since F28: the finally removes the cursor on every exit) (search_after)", "keep", _R, "                if results.get(\"hits\") / size > page and page < total_pages:", "                if results.get(\"hits\") / size > page:", "O19.6"),
     V("F17 guard dropped (harmless since F28: the finally removes the cursor on every exit) (composite)", "keep", _R, "                if isinstance(after_key, dict) and page < total_pages:", "                if isinstance(after_key, dict):", "O19.6"),
@@ -3204,6 +3400,35 @@ VARIANTS = [
     *_B8_SHAPES,
     # b9 / b10 (benign round 4): page accounting in helpers (O19.6 / O19.7 follow the stores into the helper the loop calls); in-place scan of _get_last_sort (O19.2 on values)
     *_B9_B10_SHAPES,
+    # O19.10: the standardisation of the hit total in the paginated extractors, on values (seed m16: a total of 0 taken for "no total found")
+    V("seed m16: composite hit total chosen by truthiness (`or`) instead of presence", "break", _R, _CA_TOTAL,
+      "        total = parsed.pop(\"hits.total\", hits_total)\n        parsed[\"hits.total.value\"] = parsed.pop(\"hits.total.value\", None) or total\n" + _CA_REL, "O19.10"),
+    V("search_after hit total chosen by truthiness", "break", _R, _SA_TOTAL,
+      "        parsed[\"hits.total.value\"] = parsed.pop(\"hits.total.value\", None) or parsed.pop(\"hits.total\", hits_total)\n" + _SA_REL, "O19.10"),
+    V("composite hit total: the object-shaped total's own key wins over its value", "break", _R, _CA_TOTAL,
+      "        parsed[\"hits.total.value\"] = parsed.pop(\"hits.total\", parsed.pop(\"hits.total.value\", hits_total))\n" + _CA_REL, "O19.10"),
+    V("composite hit total: conditional on the value's truthiness", "break", _R, _CA_TOTAL,
+      "        value = parsed.pop(\"hits.total.value\", None)\n        fallback = parsed.pop(\"hits.total\", hits_total)\n        parsed[\"hits.total.value\"] = value if value else fallback\n" + _CA_REL, "O19.10"),
+    V("composite relation: a lower bound reported as exact", "break", _R, _CA_TOTAL, _CA_TOTAL.replace("parsed.get(\"hits.total.relation\", \"eq\")", "\"eq\""), "O19.10"),
+    V("composite cursor dropped when a member is falsy", "break", _R, "        parsed[\"after_key\"] = parsed.pop(after_key, None)\n",
+      "        cursor = parsed.pop(after_key, None)\n        parsed[\"after_key\"] = cursor if cursor and all(cursor.values()) else None\n", "O19.10"),
+    V("composite hit total unrolled, still by presence", "keep", _R, _CA_TOTAL,
+      "        total = parsed.pop(\"hits.total\", hits_total)\n        parsed[\"hits.total.value\"] = parsed.pop(\"hits.total.value\", total)\n" + _CA_REL),
+    V("composite hit total: fallback unless a value was found (is None)", "keep", _R, _CA_TOTAL,
+      "        fallback = parsed.pop(\"hits.total\", hits_total)\n        value = parsed.pop(\"hits.total.value\", None)\n        parsed[\"hits.total.value\"] = fallback if value is None else value\n" + _CA_REL),
+    V("search_after hit total by membership test", "keep", _R, _SA_TOTAL,
+      "        legacy_total = parsed.pop(\"hits.total\", hits_total)\n        if \"hits.total.value\" not in parsed:\n            parsed[\"hits.total.value\"] = legacy_total\n"
+      "        if \"hits.total.relation\" not in parsed:\n            parsed[\"hits.total.relation\"] = \"eq\"\n\n        return parsed, self._get_last_sort(response)\n"),
+    [V("standardisation of the totals in a helper shared by both extractors", "keep", _R, "class SearchAfterExtractor:\n",
+       "def _standardize_totals(props, known_total):\n    legacy = props.pop(\"hits.total\", known_total)\n    props[\"hits.total.value\"] = props.pop(\"hits.total.value\", legacy)\n"
+       "    props.setdefault(\"hits.total.relation\", \"eq\")\n    return props\n\n\nclass SearchAfterExtractor:\n"),
+     V("", "keep", _R, _SA_TOTAL, "        parsed = _standardize_totals(parsed, hits_total)\n\n        return parsed, self._get_last_sort(response)\n"),
+     V("", "keep", _R, _CA_TOTAL, "        _standardize_totals(parsed, hits_total)\n        parsed[\"after_key\"]")],
+    [V("shared helper that tests truthiness", "break", _R, "class SearchAfterExtractor:\n",
+       "def _standardize_totals(props, known_total):\n    legacy = props.pop(\"hits.total\", known_total)\n    props[\"hits.total.value\"] = props.pop(\"hits.total.value\", None) or legacy\n"
+       "    props.setdefault(\"hits.total.relation\", \"eq\")\n    return props\n\n\nclass SearchAfterExtractor:\n", "O19.10"),
+     V("", "break", _R, _SA_TOTAL, "        parsed = _standardize_totals(parsed, hits_total)\n\n        return parsed, self._get_last_sort(response)\n"),
+     V("", "break", _R, _CA_TOTAL, "        _standardize_totals(parsed, hits_total)\n        parsed[\"after_key\"]")],
     # preserving
     V("predicate extracted into a local", "keep", _R, "                if data[\"status\"] > 299 or (\"_shards\" in data and data[\"_shards\"][\"failed\"] > 0):\n                    bulk_error_count += 1\n                    self.extract_error_details(error_details, data)\n                else:\n                    bulk_success_count += 1\n        stats = {\n            \"took\": props.get(\"took\"),",
       "                failed = data[\"status\"] > 299 or (\"_shards\" in data and data[\"_shards\"][\"failed\"] > 0)\n                if failed:\n                    bulk_error_count += 1\n                    self.extract_error_details(error_details, data)\n                else:\n                    bulk_success_count += 1\n        stats = {\n            \"took\": props.get(\"took\"),"),
